@@ -201,14 +201,19 @@ class EnumRNG(np.random.Generator):
         return np.array(outs[idx], dtype=np.int64)
 
     def integers(self, low, high=None, size=None, *a, **k):
-        if size is not None or a or k:
-            raise UnmodelledRandomness("integers(size=...)")
-        self._dummy.integers(low, high)
+        if a or k:
+            raise UnmodelledRandomness("integers(dtype/endpoint=...)")
+        self._dummy.integers(low, high, size)
         if high is None:
             low, high = 0, low
         n = int(high) - int(low)
-        idx = self._choose("int", [1.0 / n] * n)
-        return int(low) + idx
+        if size is None:
+            idx = self._choose("int", [1.0 / n] * n)
+            return int(low) + idx
+        # an array of independent draws: one choice point per element, in index order
+        shape = (int(size),) if np.ndim(size) == 0 else tuple(int(x) for x in size)
+        flat = [int(low) + self._choose("int", [1.0 / n] * n) for _ in range(int(np.prod(shape)))]
+        return np.array(flat, dtype=np.int64).reshape(shape)
 
     def choice(self, a, size=None, replace=True, p=None, *args, **kw):
         if args or kw:
